@@ -17,9 +17,10 @@
      instances with the translated code.
    * results_ after ExecuteInternal holds at most one ring (RectClip64 never passes start_new): a list of tagged
      points, newest first.  Ghost tags (never read by the computation): SV i = copy of path[i]; SI i = point
-     returned with result true by GetIntersection for the input edge ending at path[i]; SX i = the ip2 that
-     ExecuteInternal adds although the second GetIntersection call of a pass-through returned false (the
-     result of that call is ignored by the code); SC k = rect_as_path_[k].
+     returned with result true by GetIntersection for the input edge ending at path[i]; SC k = rect_as_path_[k].
+     (The constructor SX of [src] is not used here.  Before the repair of the pass-through branch -- an edge is now
+     treated as passing through only when BOTH GetIntersection calls succeed -- the code ignored the result of the
+     second call and added its ip2 anyway; that point, typically Point64() = (0,0), used to be tagged SX.)
    * CheckEdges / TidyEdges / GetPath work on a heap of OutPt2 nodes (op_container_; a pointer is the index of
      the node, in creation order), results_ : list (option nat), edges_ : 8 lists of option nat.
    * Every loop runs on fuel, every vector read is bounds-checked: rect_as_path_[4] (AddCorner with
@@ -203,8 +204,14 @@ Section Internal.
         else
           match nth_error path i, nth_error path (match i with O => hi | S j => j end) with
           | Some pi, Some prev_pt =>
-            let '(ok, crossing_loc, ip) := gi pi prev_pt loc default_pt in
-            if negb ok then
+            let '(ok, crossing_loc0, ip) := gi pi prev_pt loc default_pt in
+            (* when passing right through, the first intersection ip2 is searched from the other end; if only one
+               direction sees an intersection the edge touches the rectangle too lightly to be crossing it *)
+            let passing := ok && negb (is_inside loc) && negb (is_inside prev) in
+            let '(ok2, loc2, ip2) := if passing then gi prev_pt pi prev default_pt else (true, prev, default_pt) in
+            let crossing := ok && ok2 in
+            let crossing_loc := if ok && negb ok2 then loc else crossing_loc0 in
+            if negb crossing then
               (* remaining outside *)
               if is_inside crossing_prev then
                 sl <- startloc_loop loop_fuel prev loc (iscw prev loc prev_pt pi) (s_sl s) ;;
@@ -222,12 +229,11 @@ Section Internal.
                 clip_loop f (mkSt i loc crossing_loc (s_first s) (s_sl s) (add (ip, SI i) false rs'))
               else clip_loop f (mkSt i loc crossing_loc (s_first s) (s_sl s) (add (ip, SI i) false rs))
             else if negb (is_inside prev) then
-              (* passing right through: ip is the second intersection, ip2 the first *)
-              let '(ok2, loc2, ip2) := gi prev_pt pi prev default_pt in
+              (* passing right through: ip is the second intersection, ip2 (found above, from the other end) the first *)
               rs1 <- (if negb (is_inside crossing_prev) && negb (loc_eqb crossing_prev loc2)
                       then add_corner2 crossing_prev loc2 rs else Ok rs) ;;
               let '(first, sl) := if is_inside (s_first s) then (loc2, s_sl s ++ [prev]) else (s_first s, s_sl s) in
-              let rs2 := add (ip2, if ok2 then SI i else SX i) false rs1 in
+              let rs2 := add (ip2, SI i) false rs1 in
               if pt_eqb ip ip2 then
                 let loc3 := snd (getloc pi) in
                 rs3 <- add_corner2 crossing_loc loc3 rs2 ;;
@@ -589,7 +595,10 @@ Section Tidy.
         '(h', x) <- gp_strip (ring_fuel h) h op (n_next n) ;;
         match x with
         | None => Ok (h', [])
-        | Some op' => n' <- nd h' op' ;; l <- gp_collect (ring_fuel h) h' op' (n_next n') [n_pt n'] ;; Ok (h', l)
+        | Some op' =>
+          n' <- nd h' op' ;;
+          if (n_next n' =? n_prev n')%nat then Ok (h', [])     (* fewer than 3 points are left *)
+          else l <- gp_collect (ring_fuel h) h' op' (n_next n') [n_pt n'] ;; Ok (h', l)
         end
     end.
 
